@@ -136,3 +136,76 @@ Definition case_fo := (nat * list (list Z) * list (list Z) * list (list Z))%type
 Definition fo_agrees (c : case_fo) : bool :=
   let '(Na, HH, F, out) := c in
   all2 (all2 Z.eqb) (list_of_mat Na (foerster_rates (R:=ZR) Na (mat_of (R:=ZR) HH) (mat_of (R:=ZR) F))) out.
+
+
+(* ------------------------------------------------------------------------------------------ *)
+(*  Foerster: what the integral is called with; get_FTCorrelationFunction as a whole           *)
+(* ------------------------------------------------------------------------------------------ *)
+(* _reference_implementation calls  _fintegral(tt, gt[a,:], gt[b,:], ed = HH[b,b], ea = HH[a,a], ll[b]):  the column index b is the
+   donor (its energy and its reorganisation energy enter), the row index a the acceptor; [fint] is the oracle integral *)
+Definition foerster_F {R : StarRing} {G : Type} (fint : G -> G -> R -> R -> R -> R) (gt : nat -> G) (HH : @mat R) (ll : nat -> R)
+  (a b : nat) : R := fint (gt a) (gt b) (HH b b) (HH a a) (ll b).
+(* _fintegral: the integrand is exp(-gtd - gta + 1j*phase*tt) with phase = (ed - ea) - 2 ld, and the result 2 Re of the last point of
+   its antiderivative *)
+Definition foerster_phase {R : StarRing} (two ed ea ld : R) : R := rsub R (rsub R ed ea) (rmul R two ld).
+
+Local Open Scope Q_scope.
+(* temperature selection of get_FTCorrelationFunction: [arg] is the temperature= argument, every component of the spectral density
+   stores a temperature or none; the argument overwrites the stored ones; all components must then agree *)
+Inductive ft_temp := FtOk (t : Q) | FtErr.
+Definition ft_prm_T (arg stored : option Q) : option Q := match arg with Some t => Some t | None => stored end.
+Fixpoint ft_temp_from (arg : option Q) (temp : Q) (ps : list (option Q)) : ft_temp :=
+  match ps with
+  | [] => FtOk temp
+  | p :: ps' => match ft_prm_T arg p with
+                | None => FtErr
+                | Some t => if Qeq_bool temp t then ft_temp_from arg temp ps' else FtErr
+                end
+  end.
+Definition ft_temperature (arg : option Q) (ps : list (option Q)) : ft_temp :=
+  match ps with
+  | [] => FtErr
+  | p :: ps' => match ft_prm_T arg p with None => FtErr | Some t => ft_temp_from arg t ps' end
+  end.
+
+(* twokbt = 2.0*kB_int*temp; a grid point away from zero: (1 + 1/tanh(w/twokbt)) J(w); [th] = numpy.tanh *)
+Definition ftcf_twokbt (kB T : Q) : Q := 2 * kB * T.
+Definition ftcf_point (th : Q -> Q) (twokbt w J : Q) : Q := ftcf_value (th (w / twokbt)) J.
+(* the whole grid: if zero is further than atol from every grid point ([direct]) the formula is used everywhere, otherwise the
+   point i0 = axis.locate(0.0) gets the L'Hospital value from its two neighbours *)
+Definition ftcf_grid (th : Q -> Q) (twokbt step : Q) (i0 : nat) (direct : bool) (omega data : nat -> Q) (i : nat) : Q :=
+  if direct then ftcf_point th twokbt (omega i) (data i)
+  else if Nat.eqb i i0 then ftcf_zero twokbt (data (S i0)) (data (pred i0)) step
+  else ftcf_point th twokbt (omega i) (data i).
+
+
+(* ---- executable instances for the additions ---- *)
+(* Foerster with the integral replaced by an integer function that tells its five arguments apart: (Na, HH, ll, out); the
+   line-shape function of site i is represented by i *)
+Definition fint_probe (gd ga : Z) (ed ea ld : ZR) : ZR := (gd + 10 * ga + 100 * ed + 1000 * ea + 10000 * ld)%Z.
+Definition case_fo2 := (nat * list (list Z) * list Z * list (list Z))%type.
+Definition fo2_agrees (c : case_fo2) : bool :=
+  let '(Na, HH, ll, out) := c in
+  let H := mat_of (R:=ZR) HH in
+  all2 (all2 Z.eqb) (list_of_mat Na (foerster_rates (R:=ZR) Na H (foerster_F (R:=ZR) fint_probe Z.of_nat H (fun i => nth i ll 0%Z)))) out.
+
+(* temperature selection: (temperature argument, stored temperatures, temperature found in the result or None for an exception) *)
+Definition case_ftT := (option Q * list (option Q) * option Q)%type.
+Definition ftT_agrees (c : case_ftT) : bool :=
+  let '(arg, ps, res) := c in
+  match ft_temperature arg ps, res with
+  | FtOk t, Some t' => Qeq_bool t t'
+  | FtErr, None => true
+  | _, _ => false
+  end.
+
+(* values on the grid: (twokbt, step, i0, direct, [(i, omega_i, data_i, tanh(omega_i/twokbt) as computed by numpy, vals_i)]) *)
+Definition case_ftg := (Q * Q * nat * bool * list (nat * Q * Q * Q * Q))%type.
+Definition ftg_data (l : list (nat * Q * Q * Q * Q)) (i : nat) : Q :=
+  match find (fun p => Nat.eqb (fst (fst (fst (fst p)))) i) l with Some p => snd (fst (fst p)) | None => 0 end.
+Definition ftg_agrees (tol : Q) (c : case_ftg) : bool :=
+  let '(twokbt, step, i0, direct, l) := c in
+  forallb (fun p => let '(i, w, J, t, v) := p in
+                    let m := ftcf_grid (fun _ => t) twokbt step i0 direct (fun _ => w) (ftg_data l) i in
+                    (* float rounding of 1 + 1/tanh where tanh is close to -1 (cancellation): a few ulp of |J| (1 + 1/|tanh|) *)
+                    Qle_bool (Qabs (m - v)) (tol * Qabs v + (4 # 1000000000000000) * Qabs J * (1 + Qabs (1 / t)))) l.
